@@ -30,7 +30,7 @@ def _refuses_int(excname):
     return post
 
 
-def _key_variants(props=('C03',), hooks=None):
+def _key_variants(props=('C03', 'C14'), hooks=None):
     return Variant('str', params={'item': 'key'}, requires=lambda S: smt.KEYS(_d(S)), post=post_getitem_key(in_view),
                    props=props, hooks=hooks or {})
 
